@@ -6,6 +6,7 @@ import (
 	"go/constant"
 	"go/token"
 	"go/types"
+	"hash/fnv"
 	"math/big"
 	"sort"
 	"strings"
@@ -575,7 +576,7 @@ func (p *prover) argRole(e sym.Expr) string {
 func CheckC15(c *Ctx) {
 	run := c.Run
 	run.Technique = "range proof over value terms: each claimed bound is reduced, on the rational-function normal form of the indicator's derived term, to polynomial non-negativity and discharged by an exact linear-programming certificate (degree <= 2 products) from the validity of the inputs and the axioms of the primitive operators; conditionals are split by cases, sub-indicators enter through their own proved lemmas"
-	run.Explanation = "For every bound in C15's statement the check takes the term the calculus derives for that output (the one C01 compares with the documented formula), writes `bound - value` as N/D over atoms (input series at a day, primitive operator applications), determines the sign of D and proves the sign of N as a non-negative combination of: low <= open, close <= high, prices > 0, volume >= 0 at each day; |x| >= +-x; max/min bounds; MovingMax(x) >= x >= MovingMin(x); positivity, linearity and (for averages) constant-preservation of Sma/Ema/Rma/Smma/MovingSum; MovingStd >= 0; rounding to whole numbers keeps whole bounds. A certificate is an identity of polynomials, so the bound holds for every series and configuration wherever the formula is defined; positions with a zero denominator are exempt as in the statement. Not decided: that the window operators really return the window extreme (the axiom MovingMin <= value <= MovingMax is C15's own clause for them and is assumed, C17 covers the search tree), floating-point rounding, and Atr/Envelope/SuperTrend configured with a non-averaging moving average (Dema, Tema, Hma)."
+	run.Explanation = "For every bound in C15's statement the check takes the term the calculus derives for that output (the one C01 compares with the documented formula), writes `bound - value` as N/D over atoms (input series at a day, primitive operator applications), determines the sign of D and proves the sign of N as a non-negative combination of: low <= open, close <= high, prices > 0, volume >= 0 at each day; |x| >= +-x; max/min bounds; MovingMax(x) >= x >= MovingMin(x); positivity, linearity and (for averages) constant-preservation of Sma/Ema/Rma/Smma/MovingSum; MovingStd >= 0; rounding to whole numbers keeps whole bounds. A certificate is an identity of polynomials, so the bound holds for every series and configuration wherever the formula is defined; positions with a zero denominator are exempt as in the statement. Not decided: that the window operators really return the window extreme (the axiom MovingMin <= value <= MovingMax is C15's own clause for them and is assumed, C17 covers the search tree), floating-point rounding, and Atr/Envelope/SuperTrend configured with a non-averaging moving average (Dema, Tema, Hma). The radicand of the standard deviation is non-negative by construction (sums, products and quotients of even powers, squares and periods), and for the indicators with a range claim the computed expression has the documented formula's value at the probed limit points (a denominator atom at +0/-0): a bound proved over the reals does not cover a NaN."
 	run.Trusted = []string{"go/types", "value terms of the stream calculus (C01 formula rule)", "operator axioms rules.opAxioms", "claims table rules.RangeClaims (from C15's statement)", "exact simplex over big rationals (internal/posit)", "configuration parameters are non-negative, periods >= 1"}
 	for op, ax := range opAxioms {
 		run.Assume("operator " + op + ": " + ax)
@@ -645,7 +646,9 @@ func (c *Ctx) rangeClaims(fi *load.FuncInfo, r *shape.Result, rc rangeClaim, pro
 			*proved++
 			continue
 		}
-		run.Violate(report.Finding{Rule: "range", Site: site, Detail: short(sym.CanonString(e), 140), Pos: c.P.Pos(fi.Decl.Pos()),
+		rh := fnv.New32a()
+		rh.Write([]byte(sym.CanonString(e)))
+		run.Violate(report.Finding{Rule: "range", Site: site, Detail: fmt.Sprintf("%s #%08x", short(sym.CanonString(e), 120), rh.Sum32()), Pos: c.P.Pos(fi.Decl.Pos()),
 			Message: fmt.Sprintf("%s: no proof that %s >= 0 for the value this indicator computes (%s); the inputs' validity and the operators' axioms do not imply it", rc.Doc, cl, short(sym.CanonString(e), 260))})
 	}
 }
